@@ -1094,6 +1094,12 @@ class Evaluator:
                 return frozenset(_freeze(x) for x in self._iterate(args[0], n)) if args else frozenset()
             if f == "dict" and not args:
                 return {}
+            if f == "dict" and len(args) == 1 and not n.keywords:
+                if isinstance(args[0], dict):
+                    return dict(args[0])
+                pairs = [tuple(self._iterate(x, n)) for x in self._iterate(args[0], n)]
+                if all(len(p) == 2 for p in pairs):
+                    return {_freeze(k): v for k, v in pairs}
             if f == "sorted":
                 return self._sorted(list(self._iterate(args[0], n)), n)
             if f == "reversed":
@@ -1258,7 +1264,7 @@ class Evaluator:
                 if meth == "update":
                     recv.update(_freeze(x) for x in self._iterate(args[0], n))
                     return None
-                if meth in ("intersection", "union", "difference", "issubset", "issuperset"):
+                if meth in ("intersection", "union", "difference", "issubset", "issuperset", "isdisjoint", "symmetric_difference"):
                     return getattr(recv, meth)(set(self._iterate(args[0], n)))
         raise NotEvaluable(f"call not evaluable: {ast.unparse(n)[:80]}")
 
